@@ -184,3 +184,162 @@ Proof.
   split; vm_compute; tauto.
 Qed.
 Print Assumptions C05_generated_automatic_headers_are_the_modelled_ones.
+
+(* ---- generated constructors of the response classes (translator
+   harness/py2v_classes.py -> gen/ClassesGen.v, regenerated from
+   poorwsgi/response.py on every run; primitives lib/PyClasses.v): each
+   builds, for all arguments, what the model's constructor primitives of
+   lib/PyShapes.v build.  [ce : cenv] holds what is uninterpreted: ce_ih =
+   isinstance(_, Headers), ce_idt = isinstance(_, datetime), ce_t2h / ce_d2h
+   = time_to_http / datetime_to_http, ... (lib/PyClasses.v). *)
+Require Import PW.lib.PyAbort PW.lib.PyClasses PW.gen.ClassesGen PW.proofs.ClassesGenEq.
+
+(* BaseResponse.__init__ = base_init: content type, headers, status of the
+   object it leaves, or no object where the model has none.  Domain: a
+   Headers object is a usable headers collection; the content type has no
+   lone surrogate (known deviation of the model's mk_ctype) *)
+Theorem C05_generated_base_init_is_model :
+  forall w ce,
+    (forall x, ce_ih ce x = true ->
+               exists l hs, x = DV (PHdrs (Some l)) /\ iso_pairs l = Some hs) ->
+    forall s0 c h s,
+      (forall t, c = DV (PStr t) -> utf8 t <> None) ->
+      match fst (gen_base_init w ce s0 c h s) with
+      | Val o => obj_triple o
+      | Exc _ => None
+      end = base_init w c h s.
+Proof. exact gen_base_init_eq. Qed.
+Print Assumptions C05_generated_base_init_is_model.
+
+(* NoContentResponse.__init__ (default status 204 from its signature) *)
+Theorem C05_generated_nocontent_init_is_model :
+  forall w ce,
+    (forall x, ce_ih ce x = true ->
+               exists l hs, x = DV (PHdrs (Some l)) /\ iso_pairs l = Some hs) ->
+    (forall h s,
+      match fst (gen_nocontent_init w ce [] h s) with
+      | Val o => obj_resp ce CNoContent o
+      | Exc _ => None
+      end
+      = match fst (c_NoContentResponse w h s) with
+        | Val (DV (PResp r)) => Some r
+        | _ => None
+        end) /\
+    gen_nocontent_init_defaults = [DV PNone; DV (PInt 204)] /\
+    gen_base_init_defaults = [DV (PStr []); DV PNone; DV (PInt 200)].
+Proof.
+  intros w ce H. split; [|split; reflexivity].
+  exact (gen_nocontent_init_eq w ce H).
+Qed.
+Print Assumptions C05_generated_nocontent_init_is_model.
+
+(* JSONResponse.__init__ = c_JSONResponse, on the domain the model has: no
+   encoder_kwargs, charset a str, no **kwargs (an empty dict is falsy) *)
+Theorem C05_generated_json_response_init_is_model :
+  forall w ce data cs h s kw,
+    truthy kw = false ->
+    gen_json_response_init w ce data (DV (PStr cs)) h s (DV PNone) kw
+    = c_JSONResponse w data (DV (PStr cs)) h s (DV PNone).
+Proof. intros w ce. exact (gen_json_response_init_eq w ce). Qed.
+Print Assumptions C05_generated_json_response_init_is_model.
+
+(* TextResponse.__init__ : Response(text, "text/plain" [+ "; charset=" +
+   charset], headers, status_code) through the model's c_Response *)
+Theorem C05_generated_text_response_init_is_model :
+  forall w ce text cs h s,
+    gen_text_response_init w ce text (DV (PStr cs)) h s
+    = c_Response w text
+        (DV (PStr (s2l "text/plain" ++
+                   match cs with [] => [] | _ => s2l "; charset=" ++ cs end)))
+        h s.
+Proof. intros w ce. exact (gen_text_response_init_eq w ce). Qed.
+Print Assumptions C05_generated_text_response_init_is_model.
+
+(* NotModifiedResponse.__init__ : NoContentResponse(headers, 304) of the
+   model, then ETag, Content-Location, Date, Vary appended in this order,
+   each only if its argument is given (ClassesGenEq.notmodified_response) *)
+Theorem C05_generated_notmodified_init_is_model :
+  forall w ce,
+    (forall x, ce_ih ce x = true ->
+               exists l hs, x = DV (PHdrs (Some l)) /\ iso_pairs l = Some hs) ->
+    forall h etag cloc date vary,
+      match fst (gen_notmodified_init w ce [] h etag cloc date vary) with
+      | Val o => obj_resp ce CNoContent o
+      | Exc _ => None
+      end
+      = match fst (bind (c_NoContentResponse w h (DV (PInt 304))) (fun r0 =>
+                   bind (add_if (truthy etag) "ETag" etag r0) (fun r1 =>
+                   bind (add_if (truthy cloc) "Content-Location" cloc r1) (fun r2 =>
+                   bind (if cl_isinstance date [ClStr] && truthy date
+                         then resp_add_header r2 (hname "Date") date
+                         else if cl_isinstance date [ClInt]
+                              then resp_add_header r2 (hname "Date") (ce_t2h ce date)
+                              else add_if (ce_idt ce date) "Date" (ce_d2h ce date) r2) (fun r3 =>
+                   add_if (truthy vary) "Vary" vary r3))))) with
+        | Val (DV (PResp r)) => Some r
+        | _ => None
+        end.
+Proof. intros w ce H. exact (gen_notmodified_init_eq w ce H). Qed.
+Print Assumptions C05_generated_notmodified_init_is_model.
+
+(* FileResponse.__init__ (and FileObjResponse.__init__ under it, without the
+   length bookkeeping gen/ClenGen.v ties): ClassesGenEq.file_response =
+   IOError unless access(path, R_OK); content type = the argument, else
+   mimetypes.guess_type(path)[0], else "application/octet-stream"; the file
+   opened 'rb' unbuffered, which must be a readable binary stream; the
+   model's base_init of (content type, headers, status) as a CBase response
+   whose length and body are the file's; make_partial() (Accept-Ranges:
+   bytes iff the status is 200); then Last-Modified =
+   time_to_http(getctime(path)) unless the headers already have one.
+   Domain: as for base_init; the length is an int *)
+Theorem C05_generated_file_response_init_is_model :
+  forall w ce,
+    (forall x, ce_ih ce x = true ->
+               exists l hs, x = DV (PHdrs (Some l)) /\ iso_pairs l = Some hs) ->
+    (forall f, exists n, ce_flen ce f = DV (PInt n)) ->
+    (forall f ctype h s,
+      (forall t, fileobj_ctype ctype = DV (PStr t) -> utf8 t <> None) ->
+      match fst (gen_fileobj_init w ce [] f ctype h s) with
+      | Val o => obj_resp ce CBase o
+      | Exc _ => None
+      end
+      = match fst (fileobj_response w ce f ctype h s) with
+        | Val (DV (PResp r)) => Some r
+        | _ => None
+        end) /\
+    (forall path ctype h s,
+      (forall t, fileobj_ctype (if is_none ctype then ce_mime ce path else ctype)
+                 = DV (PStr t) -> utf8 t <> None) ->
+      match fst (gen_file_response_init w ce [] path ctype h s) with
+      | Val o => obj_resp ce CBase o
+      | Exc _ => None
+      end
+      = match fst (file_response w ce path ctype h s) with
+        | Val (DV (PResp r)) => Some r
+        | _ => None
+        end).
+Proof.
+  intros w ce H1 H2. split.
+  - exact (gen_fileobj_init_eq w ce H1 H2).
+  - exact (gen_file_response_init_eq w ce H1 H2).
+Qed.
+Print Assumptions C05_generated_file_response_init_is_model.
+
+(* GeneratorResponse.__init__ = c_GeneratorResponse (content type, headers,
+   status through base_init; the length and the iterable of bytes kept) *)
+Theorem C05_generated_generator_init_is_model :
+  forall w ce,
+    (forall x, ce_ih ce x = true ->
+               exists l hs, x = DV (PHdrs (Some l)) /\ iso_pairs l = Some hs) ->
+    forall g c h s n,
+      (forall t, c = DV (PStr t) -> utf8 t <> None) ->
+      match fst (gen_generator_init w ce [] g c h s n) with
+      | Val o => generator_view ce o
+      | Exc _ => None
+      end
+      = match fst (c_GeneratorResponse w g c h s n) with
+        | Val (DV (PResp r)) => Some r
+        | _ => None
+        end.
+Proof. intros w ce H. exact (gen_generator_init_eq w ce H). Qed.
+Print Assumptions C05_generated_generator_init_is_model.
